@@ -284,7 +284,8 @@ class ActRun(busdiff.ImplRun):
                 if not self._alive(p):
                     self.stubs.pop(p, None)
         self.info.append({"started": started, "killed": killed, "ended": ended,
-                          "live_before": sorted(self.stubs_num.get(p, -1) for p in before)})
+                          "live_before": sorted(self.stubs_num.get(p, -1) for p in before),
+                          "alive_after": sorted(self.stubs_num.get(p, self.stubs.get(p, (None, -1))[1]) for p in list(self.stubs) if self._alive(p))})
         return got, newly
 
 
@@ -400,6 +401,7 @@ def compare(ops, policy, limits, svc, impl=None):
     steps, died, _, infos = impl if impl is not None else run_impl(ops, policy, limits, svc)
     model = model_run(ops, policy, limits, svc, infos)
     isteps = busdiff.dump_steps(steps)
+    must_die = set()
     for i, (iper, newly) in enumerate(isteps):
         op = ops[i]
         mper, mclosed, msp, mkl = model[i]
@@ -411,11 +413,22 @@ def compare(ops, policy, limits, svc, impl=None):
             return {"step": i, "op": show_op(op), "kind": "closed", "impl": sorted(newly), "model": sorted(mclosed)}
         if sorted(map(tuple, infos[i]["started"])) != tags_of(msp, svc):
             return {"step": i, "op": show_op(op), "kind": "programs-started", "impl": infos[i]["started"], "model": tags_of(msp, svc), "model_names": msp}
-        # the daemon kills the program of an activation that times out; one that has already ended is not there to be killed
-        if sorted(infos[i]["killed"]) != sorted(num for _, num in mkl if num is not None and num in infos[i]["live_before"]):
+        # the daemon kills the program of an activation that times out; one that has already ended is not there to be killed.
+        # When a killed program is seen to be gone is up to the kernel's scheduler: at the step itself only programs the model
+        # kills may be found dead; that every one of them is gone is checked at the end of the history
+        mk = sorted(num for _, num in mkl if num is not None and num in infos[i]["live_before"])
+        if not set(infos[i]["killed"]) <= set(mk):
             return {"step": i, "op": show_op(op), "kind": "programs-killed", "impl": infos[i]["killed"], "model": mkl}
+        must_die.update((k, i) for k in mk)
     if died is not None:
         return {"step": len(steps), "op": show_op(ops[len(steps)]), "kind": "daemon-died", "stderr": died}
+    if infos and "alive_after" in infos[min(len(infos), len(isteps)) - 1]:
+        last = infos[min(len(infos), len(isteps)) - 1]
+        # (a program killed in the very last steps may still be on its way out: only those killed at least two steps before the end)
+        late = sorted((k, i) for k, i in must_die if k in last["alive_after"] and i < len(isteps) - 2)
+        if late:
+            k, i = late[0]
+            return {"step": i, "op": show_op(ops[i]), "kind": "programs-killed", "impl": "program %d still running at the end of the history" % k, "model": "killed at step %d" % i}
     return None
 
 
